@@ -1,12 +1,175 @@
-(* C11: budget properties of _retry. *)
+(* C11: budget properties of _retry, for every callback (any state machine), every selector script, every
+   retry interval.  A `wait` records what was requested (w_req) and what the selector answered (w_ready, w_el). *)
 From Coq Require Import ZArith List Bool Lia.
 From EN Require Import Lib.Bytes IO.Retry.
 Import ListNotations.
 Open Scope Z_scope.
 
+(* Before every wait the budget left (t minus the time the previous waits took) is positive, and the wait
+   requested is finite, positive and not larger than what is left. *)
+Fixpoint budget_ok (t : Z) (ws : list wait) : Prop :=
+  match ws with
+  | [] => True
+  | w :: ws' => 0 < t /\ (exists r, w_req w = Some r /\ 0 < r <= t) /\ budget_ok (t - w_el w) ws'
+  end.
+
+Definition ri_ok (ri : tmo) : Prop := match ri with None => True | Some x => 0 < x end.
+
+(* the selector never reports "not ready" before the requested wait is over *)
+Definition full_wait (w : wait) : Prop :=
+  w_ready w = false -> exists r, w_req w = Some r /\ r <= w_el w.
+(* no wait lasts longer than requested *)
+Definition punctual (w : wait) : Prop := exists r, w_req w = Some r /\ w_el w <= r.
+
+Lemma budget_ok_max : forall x ws, budget_ok (Z.max 0 x) ws -> budget_ok x ws.
+Proof.
+  intros x [|w ws] H; simpl in *; [exact I|].
+  destruct H as (H0 & H1 & H2).
+  assert (E : Z.max 0 x = x) by lia. rewrite E in *. repeat split; assumption.
+Qed.
+
+Lemma budget_ok_mono : forall ws t t', t <= t' -> budget_ok t ws -> budget_ok t' ws.
+Proof.
+  induction ws as [|w ws IH]; intros t t' Hle H; simpl in *; [exact I|].
+  destruct H as (H0 & (r & Hr & Hr2) & H2).
+  split; [lia|]. split; [exists r; split; [assumption|lia]|].
+  apply (IH (t - w_el w)); [lia|assumption].
+Qed.
+
+Lemma budget_ok_app : forall ws1 ws2 t,
+  budget_ok t ws1 -> budget_ok (t - sum_wait_el ws1) ws2 -> budget_ok t (ws1 ++ ws2).
+Proof.
+  induction ws1 as [|w ws1 IH]; intros ws2 t H1 H2; simpl in *.
+  - replace (t - 0) with t in H2 by lia. assumption.
+  - destruct H1 as (H0 & Hr & H3). split; [assumption|]. split; [assumption|].
+    apply IH; [assumption|]. replace (t - w_el w - sum_wait_el ws1) with (t - (w_el w + sum_wait_el ws1)) by lia.
+    assumption.
+Qed.
+
+Lemma budget_ok_nonpos : forall t ws, t <= 0 -> budget_ok t ws -> ws = [].
+Proof. intros t [|w ws] Ht H; [reflexivity|]. simpl in H. lia. Qed.
+
+(* total waiting time <= T when no wait overshoots *)
+Lemma budget_total : forall ws t, 0 <= t -> budget_ok t ws -> Forall punctual ws -> sum_wait_el ws <= t.
+Proof.
+  induction ws as [|w ws IH]; intros t Ht H HP; simpl in *; [lia|].
+  destruct H as (H0 & (r & Hr & Hr2) & H2).
+  inversion HP as [|? ? (r' & Hr' & Hle) HP']; subst.
+  rewrite Hr in Hr'. inversion Hr'; subst r'.
+  specialize (IH (t - w_el w)). assert (0 <= t - w_el w) by lia.
+  specialize (IH H H2 HP'). lia.
+Qed.
+
+(* in general: everything but the last wait fits strictly inside T (only the last wait can overshoot) *)
+Lemma budget_all_but_last : forall ws0 wl t, budget_ok t (ws0 ++ [wl]) -> sum_wait_el ws0 < t.
+Proof.
+  induction ws0 as [|w ws0 IH]; intros wl t H; simpl in *.
+  - lia.
+  - destruct H as (H0 & _ & H2). specialize (IH wl (t - w_el w) H2). lia.
+Qed.
+
 Section RetryProofs.
   Variables St R : Type.
   Variable cb : St -> cbres R * St * Z.
+
+  Lemma retry_loop_budget : forall fuel ri t st sels,
+    ri_ok ri -> budget_ok t (rr_waits (retry_loop cb fuel ri (Some t) st sels)).
+  Proof.
+    induction fuel as [|f IH]; intros ri t st sels Hri; simpl; [exact I|].
+    destruct (cb st) as [[r st1] cost]. destruct r as [v|w|c]; simpl; try exact I.
+    destruct (t <=? 0) eqn:Et; simpl; [exact I|]. apply Z.leb_gt in Et.
+    destruct (next_sel sels) as [a sels1].
+    destruct ri as [x|]; simpl in *.
+    - destruct (t <=? x) eqn:Ex; simpl.
+      + apply Z.leb_le in Ex.
+        destruct (negb (sa_ready a) && true); simpl.
+        * split; [lia|]. split; [exists t; split; [reflexivity|lia]|exact I].
+        * split; [lia|]. split; [exists t; split; [reflexivity|lia]|].
+          apply budget_ok_max. apply IH. exact Hri.
+      + apply Z.leb_gt in Ex.
+        rewrite andb_false_r. simpl.
+        split; [lia|]. split; [exists x; split; [reflexivity|lia]|].
+        apply budget_ok_max. apply IH. exact Hri.
+    - destruct (negb (sa_ready a) && true); simpl.
+      * split; [lia|]. split; [exists t; split; [reflexivity|lia]|exact I].
+      * split; [lia|]. split; [exists t; split; [reflexivity|lia]|].
+        apply budget_ok_max. apply IH. exact I.
+  Qed.
+
+  Lemma retry_budget_proof : forall fuel ri t st sels,
+    ri_ok ri -> budget_ok t (rr_waits (retry cb fuel ri (Some t) st sels)).
+  Proof.
+    intros. unfold retry. destruct (tmo_neg (Some t)); [exact I|]. apply retry_loop_budget; assumption.
+  Qed.
+
+  (* TimeoutError only when the budget is really used up *)
+  Lemma retry_loop_timeout_exhausted : forall fuel ri t st sels,
+    rr_out (retry_loop cb fuel ri (Some t) st sels) = RTimeout ->
+    Forall full_wait (rr_waits (retry_loop cb fuel ri (Some t) st sels)) ->
+    t <= sum_wait_el (rr_waits (retry_loop cb fuel ri (Some t) st sels)).
+  Proof.
+    induction fuel as [|f IH]; intros ri t st sels; simpl; [discriminate|].
+    destruct (cb st) as [[r st1] cost]. destruct r as [v|w|c]; simpl; try discriminate.
+    destruct (t <=? 0) eqn:Et; simpl.
+    { apply Z.leb_le in Et. intros; lia. }
+    apply Z.leb_gt in Et.
+    destruct (next_sel sels) as [a sels1].
+    assert (Hgen : forall req (isri : bool),
+      (isri = false -> req = t) ->
+      rr_out (if negb (sa_ready a) && negb isri
+              then mk_rres RTimeout st1 sels1 (cost + sa_el a)
+                     [{| w_write := w; w_req := Some req; w_ready := sa_ready a; w_el := sa_el a |}] 1
+              else rr_add (cost + sa_el a)
+                     [{| w_write := w; w_req := Some req; w_ready := sa_ready a; w_el := sa_el a |}]
+                     (retry_loop cb f ri (recompute (Some t) (sa_el a)) st1 sels1)) = RTimeout ->
+      Forall full_wait (rr_waits (if negb (sa_ready a) && negb isri
+              then mk_rres RTimeout st1 sels1 (cost + sa_el a)
+                     [{| w_write := w; w_req := Some req; w_ready := sa_ready a; w_el := sa_el a |}] 1
+              else rr_add (cost + sa_el a)
+                     [{| w_write := w; w_req := Some req; w_ready := sa_ready a; w_el := sa_el a |}]
+                     (retry_loop cb f ri (recompute (Some t) (sa_el a)) st1 sels1))) ->
+      t <= sum_wait_el (rr_waits (if negb (sa_ready a) && negb isri
+              then mk_rres RTimeout st1 sels1 (cost + sa_el a)
+                     [{| w_write := w; w_req := Some req; w_ready := sa_ready a; w_el := sa_el a |}] 1
+              else rr_add (cost + sa_el a)
+                     [{| w_write := w; w_req := Some req; w_ready := sa_ready a; w_el := sa_el a |}]
+                     (retry_loop cb f ri (recompute (Some t) (sa_el a)) st1 sels1)))).
+    { intros req isri Hreq.
+      destruct (negb (sa_ready a) && negb isri) eqn:Eb; simpl.
+      - intros _ HF. apply andb_true_iff in Eb. destruct Eb as [Er Ei].
+        apply negb_true_iff in Er. apply negb_true_iff in Ei.
+        pose proof (Hreq Ei) as Hq.
+        inversion HF as [|? ? Hfw _]. destruct (Hfw Er) as (r & Hr & Hle). simpl in Hr, Hle.
+        inversion Hr. lia.
+      - intros Hout HF. inversion HF as [|? ? _ HF']; subst.
+        specialize (IH ri (Z.max 0 (t - sa_el a)) st1 sels1 Hout HF'). lia. }
+    destruct ri as [x|]; simpl.
+    - destruct (t <=? x) eqn:Ex; simpl.
+      + apply (Hgen t false). reflexivity.
+      + apply (Hgen x true). discriminate.
+    - apply (Hgen t false). reflexivity.
+  Qed.
+
+  Lemma retry_timeout_exhausted_proof : forall fuel ri t st sels,
+    rr_out (retry cb fuel ri (Some t) st sels) = RTimeout ->
+    Forall full_wait (rr_waits (retry cb fuel ri (Some t) st sels)) ->
+    t <= sum_wait_el (rr_waits (retry cb fuel ri (Some t) st sels)).
+  Proof.
+    intros fuel ri t st sels. unfold retry. destruct (tmo_neg (Some t)); [discriminate|].
+    apply retry_loop_timeout_exhausted.
+  Qed.
+
+  (* with an infinite timeout _retry never raises TimeoutError *)
+  Lemma retry_loop_inf_no_timeout : forall fuel ri st sels,
+    rr_out (retry_loop cb fuel ri None st sels) <> RTimeout.
+  Proof.
+    induction fuel as [|f IH]; intros ri st sels; simpl; [discriminate|].
+    destruct (cb st) as [[r st1] cost]. destruct r as [v|w|c]; simpl; try discriminate.
+    destruct (next_sel sels) as [a sels1].
+    destruct ri as [x|]; simpl.
+    - rewrite andb_false_r. simpl. apply IH.
+    - destruct (sa_ready a); simpl; [apply IH|discriminate].
+  Qed.
 
   Lemma retry_zero_no_wait : forall fuel ri st sels,
     rr_waits (retry cb fuel ri (Some 0) st sels) = [].
@@ -14,5 +177,15 @@ Section RetryProofs.
     intros. unfold retry. simpl.
     destruct fuel as [|f]; simpl; [reflexivity|].
     destruct (cb st) as [[r st1] cost]. destruct r; reflexivity.
+  Qed.
+
+  (* with timeout 0, _retry makes exactly one attempt and hands the timeout back unchanged *)
+  Lemma retry_zero_out : forall fuel ri st sels v T',
+    rr_out (retry cb fuel ri (Some 0) st sels) = ROk v T' -> T' = Some 0.
+  Proof.
+    intros fuel ri st sels v T'. unfold retry. simpl.
+    destruct fuel as [|f]; simpl; [discriminate|].
+    destruct (cb st) as [[r st1] cost]. destruct r; simpl; try discriminate.
+    intro H; inversion H; reflexivity.
   Qed.
 End RetryProofs.
